@@ -90,6 +90,24 @@ def _arm_of2(f, st) -> str:
 def run(ctx) -> None:
     repo = ctx.repo
     reg = get_registry(repo)
+    ctx.rule('R12', 'a vector or table the levelized-cost code obtains from a memoised helper is never modified in place nor stored on the '
+                    'model (the next evaluation would read the modified object): the formula is evaluated on what its definition says, on every call')
+    from rules.c08 import memoised_result_misuse
+    f_lc = repo.function('geophires_x/Economics.py', 'CalculateLCOELCOHLCOC')
+    called = {(dotted_name(c.func) or '').split('.')[-1] for c in ast.walk(f_lc.node) if isinstance(c, ast.Call)}
+    n12 = 0
+    for g in repo.all_functions():
+        decos = [norm(d) for d in g.node.decorator_list] if hasattr(g.node, 'decorator_list') else []
+        if g.name not in called or g.cls is not None or not any('cache' in d for d in decos):
+            continue
+        n12 += 1
+        bad = memoised_result_misuse(repo, g)
+        if bad is None:
+            ctx.ok('R12', f'{g.qualname}/memoised-result', g.where, 'result never modified in place by a caller')
+        else:
+            ctx.bad('R12', f'{g.qualname}/memoised-result', bad[0], bad[1])
+    if n12 == 0:
+        ctx.ok('R12', 'CalculateLCOELCOHLCOC/no-memoised-helper', f_lc.where, 'the function calls no memoised helper')
     ctx.rule('R1', 'decision table over economic model x end-use x plant type (216 rows): every levelized cost the report '
                    'prints for a configuration is computed (assigned) on the path taken for it, and exactly one path applies')
     ctx.rule('R2', 'each levelized cost is levelized over its own product series (LCOE: NetkWhProduced, LCOH: HeatkWhProduced / '
@@ -147,7 +165,18 @@ def run(ctx) -> None:
     # who else writes <x>.LCOE.value etc.
     allowed_writers = {g.qualname for g, _ in sites} | {'AGSEconomics.Calculate', 'SUTRAEconomics.Calculate',
                                                          'EconomicsS_DAC_GT.Calculate'}   # own model families (out of scope)
+    LC = ('LCOE', 'LCOH', 'LCOC')
     for g in repo.all_functions():
+        # names that stand for a levelized-cost parameter object: `x = self.LCOE`, `for x in (self.LCOE, self.LCOH, self.LCOC):`
+        handles: Dict[str, str] = {}
+        for st in ast.walk(g.node):
+            if isinstance(st, ast.For) and isinstance(st.target, ast.Name) and isinstance(st.iter, (ast.Tuple, ast.List)):
+                hit = [(dotted_name(e) or '').split('.')[-1] for e in st.iter.elts]
+                if any(h in LC for h in hit):
+                    handles[st.target.id] = '|'.join(h for h in hit if h in LC)
+            elif isinstance(st, ast.Assign) and len(st.targets) == 1 and isinstance(st.targets[0], ast.Name) and \
+                    (dotted_name(st.value) or '').split('.')[-1] in LC and isinstance(st.value, ast.Attribute):
+                handles[st.targets[0].id] = (dotted_name(st.value) or '').split('.')[-1]
         for st in ast.walk(g.node):
             if isinstance(st, (ast.Assign, ast.AugAssign)):
                 tg = st.targets if isinstance(st, ast.Assign) else [st.target]
@@ -156,6 +185,13 @@ def run(ctx) -> None:
                     flat.extend(t.elts if isinstance(t, ast.Tuple) else [t])
                 for t in flat:
                     k = target_key(t) or ''
+                    if isinstance(t, ast.Attribute) and t.attr == 'value' and isinstance(t.value, ast.Name) and t.value.id in handles:
+                        k = f'{handles[t.value.id].split("|")[0]}.value'
+                        ctx.check(g.qualname in allowed_writers, 'R7', f'{g.qualname}/writes-{handles[t.value.id]}-through-a-handle',
+                                  f'{g.module.rel}:{st.lineno}',
+                                  f'`{norm(st)[:80]}` writes a levelized cost ({handles[t.value.id]}, through the name `{t.value.id}`) outside the '
+                                  f'shared computation: the reported figure no longer follows the selected model\'s formula')
+                        continue
                     if k.split('.')[-2:] in (['LCOE', 'value'], ['LCOH', 'value'], ['LCOC', 'value']):
                         ctx.check(g.qualname in allowed_writers, 'R7', f'{g.qualname}/writes-{k}', f'{g.module.rel}:{st.lineno}',
                                   f'`{norm(st)[:80]}` writes a levelized cost outside the shared computation: the reported figure '
@@ -529,6 +565,12 @@ def _check_r5(ctx, p, arm: str, rel: str) -> None:
         expr = d.expr
         # shape: [1 /] np.power(1 + <rate>, <range>)
         pw = [c for c in ast.walk(expr) if isinstance(c, ast.Call) and dotted_name(c.func) == 'np.power']
+        if not pw:
+            # the vector may come from a one-expression module helper (`discount_factors(rate, lifetime, first_year)`): read it written out
+            from gxstat import algebra as _alg
+            from gxstat.inline import inline_simple_calls
+            expr = inline_simple_calls(expr, _alg.INLINE_FUNCTIONS)
+            pw = [c for c in ast.walk(expr) if isinstance(c, ast.Call) and dotted_name(c.func) == 'np.power']
         ctx.require(len(pw) == 1 and len(pw[0].args) == 2, f'{key}: np.power(base, exponents) not found')
         base, exps = pw[0].args
         inv = isinstance(expr, ast.BinOp) and isinstance(expr.op, ast.Div) and norm(expr.right) == norm(pw[0])
